@@ -59,6 +59,10 @@ def sources(tier, seed, ctx):
             if diff:
                 ob[diff - 1] = 1 + ((oa[diff - 1] + 2) % 6)
             srcs.append({'a': a, 'b': a, 'oa': oa, 'ob': ob, 'shared': diff == 1, 'permute_right_inputs': False, 'ps': w, 'nest': 0, 'names': 0, 'prelude': False})
+    # deep operands: one path longer than the interpreter's recursion limit on both sides, equal and differing in one gate
+    for depth in ([1200] if tier == 'quick' else [1200, 3000]):
+        for diff in (False, True):
+            srcs.append({'k': 'deep', 'depth': depth, 'diff': diff, 'rev': diff})
     ctx['gen_note'] = f'{npairs} pairs from U(2,2,T6+OR+NXOR,2)={len(nets)} and U(3,2,4 types,2)={len(n3)}'
     return srcs
 
@@ -70,6 +74,30 @@ def probes():
 def record(src):
     from cirbo.sat import build_miter, is_circuit_satisfiable
     from .. import hist
+
+    if src.get('k') == 'deep':
+        from .. import deep
+        from ..project import project as _p
+        left, lo = deep.chain(src['depth'], ('NOT', 'XOR', 'AND', 'NXOR'), rev=src.get('rev', False))
+        # the right operand: the same chain, or one with another gate type in the middle (NAND for AND: differs when y = 1)
+        types = ['NOT', 'XOR', 'AND', 'NXOR'] * (src['depth'] // 4 + 1)
+        if src.get('diff'):
+            types[4 * (src['depth'] // 8) + 2] = 'NAND'
+        right, ro = deep.chain(src['depth'], tuple(types[:src['depth']]))
+        case = {'kind': 'miterdeep', 'l': _p(left, users=False, blocks=False), 'l_order': lo, 'r': _p(right, users=False, blocks=False), 'r_order': ro,
+                'exc': '', 'sat': False, 'sat_exc': '', 'src': src}
+        try:
+            m = build_miter(left, right)
+            case['m'] = _p(m, users=False, blocks=False)
+            case['m_order'] = [g.label for g in m.top_sort(inverse=True)]
+        except Exception as e:
+            case['exc'] = type(e).__name__
+            return case
+        try:
+            case['sat'] = bool(is_circuit_satisfiable(m).answer)
+        except Exception as e:
+            case['sat_exc'] = type(e).__name__
+        return case
 
     la = None if src['shared'] else [f'L{j}' for j in range(src['a'][0] + len(src['a'][1]))]
     if la is not None and src.get('ps', 0) % 3 == 1:
@@ -143,6 +171,9 @@ def nontrivial(case):
 
 
 def features(case):
+    if case['kind'] == 'miterdeep':
+        yield 'deep-operands' + ('-differing' if case['src'].get('diff') else '-equal')
+        return
     yield f'outputs={len(case["l"]["o"])}'
     if case['exc']:
         yield 'rejected:' + case['exc']
